@@ -207,6 +207,9 @@ pub struct BaseChain {
     /// the signer set able to sign for certificate i (None for genesis)
     pub owner: Vec<Option<usize>>,
     pub honest: bool,
+    /// own chains only: the signer set of every epoch (the one of the genesis epoch signs nothing
+    /// in the base chain)
+    pub party_of_epoch: BTreeMap<u64, usize>,
 }
 
 pub struct World {
@@ -273,7 +276,7 @@ impl World {
                 .iter()
                 .map(|c| if c.is_genesis() { None } else { Some(party_for_n(builder_signers_h1(*c.epoch), &mut parties)) })
                 .collect();
-            chains.push(BaseChain { name: "H1".into(), certs, owner, honest: true });
+            chains.push(BaseChain { name: "H1".into(), certs, owner, honest: true, party_of_epoch: BTreeMap::new() });
         }
 
         // ---- H2: project builder, identical signers in every epoch (aggregate keys repeat),
@@ -292,7 +295,7 @@ impl World {
                 .iter()
                 .map(|c| if c.is_genesis() { None } else { Some(party_for_n(3, &mut parties)) })
                 .collect();
-            chains.push(BaseChain { name: "H2".into(), certs, owner, honest: true });
+            chains.push(BaseChain { name: "H2".into(), certs, owner, honest: true, party_of_epoch: BTreeMap::new() });
         }
 
         // ---- own chains: parties with their own keys
@@ -345,7 +348,7 @@ impl World {
                 }
                 master_prev = master_this;
             }
-            BaseChain { name: name.to_string(), certs, owner, honest }
+            BaseChain { name: name.to_string(), certs, owner, honest, party_of_epoch: idx_of }
         };
 
         // ---- A: adversary — own genesis key, own signer keys, same epochs and same parameters
@@ -372,6 +375,55 @@ impl World {
     pub fn chain(&self, name: &str) -> &BaseChain {
         self.chains.iter().find(|c| c.name == name).expect("chain")
     }
+}
+
+/// Two coordinated edits around the genesis certificate `g` of an honest chain: the adversary
+/// rewrites the fields of `g` that the genesis signature does not cover (aggregate key, protocol
+/// parameters; hash recomputed, signature and signed protocol message untouched) and chains to it,
+/// inside the genesis epoch, a certificate multi-signed by its own signer set.
+pub struct GenesisEpochGraft {
+    /// (certificate, chain label, position label, mutation label)
+    pub members: Vec<(Certificate, String, usize, String)>,
+}
+
+pub fn genesis_epoch_graft(w: &World, honest_chain: &str) -> GenesisEpochGraft {
+    let h = w.chain(honest_chain);
+    let a = w.chain("A");
+    let g = &h.certs[0];
+    let e = g.epoch.0;
+    let own = &w.parties[a.party_of_epoch[&e]];
+    let next = &w.parties[a.party_of_epoch[&(e + 1)]];
+    let mut kept = g.clone();
+    kept.aggregate_verification_key = own.avk_concat();
+    kept.metadata.protocol_parameters = own.params.clone();
+    let rewritten = rehash(kept.clone());
+    let pm = |tag: &str| {
+        protocol_message(
+            Some(&next.avk_hex()),
+            Some(&next.params.compute_hash()),
+            Some(&e.to_string()),
+            Some(&format!("digest-genesis-epoch-{honest_chain}-{tag}")),
+        )
+    };
+    let child = standard_certificate(own, e, pm("a"), &rewritten.hash, 900);
+    let child_real_hash = standard_certificate(own, e, pm("b"), &g.hash, 901);
+    let fields = format!("{honest_chain}[0]~key-fields:=A-e{e}");
+    let mut members = vec![
+        (rewritten, honest_chain.to_string(), 0, format!("~key-fields:=A-e{e}")),
+        (kept, honest_chain.to_string(), 0, format!("~key-fields:=A-e{e},hash-kept")),
+        (child.clone(), format!("A-e{e}"), 0, format!("~child-of:=({fields})")),
+        (child_real_hash, format!("A-e{e}"), 0, format!("~child-of:={honest_chain}[0]")),
+    ];
+    // the rest of the adversarial chain on top of the genesis-epoch certificate
+    let mut prev = child.hash.clone();
+    for (pos, c) in a.certs.iter().enumerate().skip(1) {
+        let mut n = c.clone();
+        n.previous_hash = prev.clone();
+        let n = rehash(n);
+        prev = n.hash.clone();
+        members.push((n, "A".to_string(), pos, format!("~grafted-onto:=(A-e{e}[0]~child-of:=({fields}))")));
+    }
+    GenesisEpochGraft { members }
 }
 
 /// re-sign `c` with `party` over a new protocol message (everything else kept, hash recomputed)
@@ -604,6 +656,13 @@ pub fn seam_a_pool(w: &World, cfg: &MutationCfg) -> Pool {
             let mut pm = c.protocol_message.clone();
             pm.set_message_part(ProtocolMessagePartKey::NextProtocolParameters, "ff".repeat(32));
             add(&mut pool, resign(c, party, pm), "~next-params:=other,re-signed".into(), true);
+        }
+    }
+
+    // genesis-epoch grafts (two coordinated edits) on every honest chain
+    for ch in w.chains.iter().filter(|c| c.honest) {
+        for (cert, chain, pos, m) in genesis_epoch_graft(w, &ch.name).members {
+            pool.push(&mut seen, cert, &chain, pos, m, false);
         }
     }
 
